@@ -2309,3 +2309,192 @@ func ruleMemberStore(prog *Program, rep *Report) {
 		rep.Violate(Finding{Rule: "C-memberstore", Key: key, Pos: prog.Pos(b.pos), Msg: fmt.Sprintf("the member-store block of %s assigns the parser fields {%s}; the other %d such blocks assign {%s}", b.fn, sig(b), best, major)})
 	}
 }
+
+// ---------------------------------------------------------------- E-selfprogress
+
+// matchSelfProgress: a method that calls itself on the same receiver with its own parameters unchanged can
+// only terminate because the state it branches on has changed (gen.Number.AsNum retries after FillBig has filled
+// the text buffer its first case tests). In the branch that contains such a self-call, a direct assignment to a
+// receiver field that an enclosing condition tests, made before the self-call, may undo that change: the retry
+// then takes the same branch again, forever.
+func matchSelfProgress(files []*ast.File, info *types.Info) (sites []synSite, examined int) {
+	for _, f := range files {
+		for _, d := range f.Decls {
+			fd, ok := d.(*ast.FuncDecl)
+			if !ok || fd.Body == nil || fd.Recv == nil || len(fd.Recv.List) != 1 || len(fd.Recv.List[0].Names) != 1 {
+				continue
+			}
+			self := info.Defs[fd.Name]
+			recv := info.Defs[fd.Recv.List[0].Names[0]]
+			var params []types.Object
+			if fd.Type.Params != nil {
+				for _, p := range fd.Type.Params.List {
+					for _, nm := range p.Names {
+						params = append(params, info.Defs[nm])
+					}
+				}
+			}
+			fieldsIn := func(e ast.Expr, into map[string]bool) {
+				if e == nil {
+					return
+				}
+				ast.Inspect(e, func(n ast.Node) bool {
+					if sel, ok := n.(*ast.SelectorExpr); ok {
+						if id, ok := ast.Unparen(sel.X).(*ast.Ident); ok && info.Uses[id] == recv {
+							into[sel.Sel.Name] = true
+						}
+					}
+					return true
+				})
+			}
+			// walk with the guard fields and the statements that precede the current one inside the innermost
+			// branch whose condition tests the receiver
+			var walk func(list []ast.Stmt, guards map[string]bool, prefix []ast.Stmt)
+			walk = func(list []ast.Stmt, guards map[string]bool, prefix []ast.Stmt) {
+				for i, s := range list {
+					before := append(append([]ast.Stmt{}, prefix...), list[:i]...)
+					// a self-call with unchanged arguments in this statement (not inside a nested block)?
+					isSelf := false
+					ast.Inspect(s, func(n ast.Node) bool {
+						if _, nested := n.(*ast.BlockStmt); nested {
+							return false // handled when that block is walked
+						}
+						call, ok := n.(*ast.CallExpr)
+						if !ok {
+							return true
+						}
+						sel, ok := ast.Unparen(call.Fun).(*ast.SelectorExpr)
+						if !ok || info.Uses[sel.Sel] != self {
+							return true
+						}
+						if id, ok := ast.Unparen(sel.X).(*ast.Ident); !ok || info.Uses[id] != recv {
+							return true
+						}
+						if len(call.Args) != len(params) {
+							return true
+						}
+						for k, a := range call.Args {
+							id, ok := ast.Unparen(a).(*ast.Ident)
+							if !ok || info.Uses[id] != params[k] {
+								return true
+							}
+						}
+						isSelf = true
+						return true
+					})
+					if isSelf && len(guards) > 0 {
+						examined++
+						lastCall := -1
+						for j, st := range before {
+							if es, ok := st.(*ast.ExprStmt); ok {
+								if c, ok := es.X.(*ast.CallExpr); ok {
+									if sel, ok := c.Fun.(*ast.SelectorExpr); ok {
+										if id, ok := ast.Unparen(sel.X).(*ast.Ident); ok && info.Uses[id] == recv {
+											lastCall = j
+										}
+									}
+								}
+							}
+						}
+						for j := lastCall + 1; j < len(before); j++ {
+							as, ok := before[j].(*ast.AssignStmt)
+							if !ok {
+								continue
+							}
+							for _, l := range as.Lhs {
+								if sel, ok := ast.Unparen(l).(*ast.SelectorExpr); ok {
+									if id, ok := ast.Unparen(sel.X).(*ast.Ident); ok && info.Uses[id] == recv && guards[sel.Sel.Name] {
+										name := enclosingFuncName(f, fd.Pos())
+										sites = append(sites, synSite{pos: as.Pos(), file: f, key: fmt.Sprintf("%s:retry-after-assigning:%s", name, sel.Sel.Name),
+											msg: fmt.Sprintf("%s calls itself with unchanged arguments after assigning %s.%s, a field the enclosing branch condition tests: nothing guarantees that the retry takes another branch (unbounded recursion)", name, id.Name, sel.Sel.Name)})
+									}
+								}
+							}
+						}
+					}
+					enter := func(body []ast.Stmt, conds ...ast.Expr) {
+						g := map[string]bool{}
+						for k := range guards {
+							g[k] = true
+						}
+						for _, c := range conds {
+							fieldsIn(c, g)
+						}
+						walk(body, g, before)
+					}
+					switch x := s.(type) {
+					case *ast.BlockStmt:
+						walk(x.List, guards, before)
+					case *ast.IfStmt:
+						enter(x.Body.List, x.Cond)
+						switch e := x.Else.(type) {
+						case *ast.BlockStmt:
+							enter(e.List, x.Cond)
+						case *ast.IfStmt:
+							enter([]ast.Stmt{e}, x.Cond)
+						}
+					case *ast.SwitchStmt:
+						var conds []ast.Expr
+						if x.Tag != nil {
+							conds = append(conds, x.Tag)
+						}
+						for _, c := range x.Body.List {
+							conds = append(conds, c.(*ast.CaseClause).List...)
+						}
+						for _, c := range x.Body.List {
+							enter(c.(*ast.CaseClause).Body, conds...)
+						}
+					case *ast.ForStmt:
+						walk(x.Body.List, guards, before)
+					case *ast.RangeStmt:
+						walk(x.Body.List, guards, before)
+					}
+				}
+			}
+			walk(fd.Body.List, map[string]bool{}, nil)
+		}
+	}
+	return
+}
+
+const fixtureSelfProgress = `package fixture
+
+type num struct {
+	big []byte
+	i   uint64
+}
+
+func (n *num) fill() { n.big = append(n.big, '1') }
+
+func (n *num) good() any {
+	switch {
+	case 0 < len(n.big):
+		return string(n.big)
+	default:
+		n.fill()
+		if n.i > 10 {
+			return n.good()
+		}
+	}
+	return n.i
+}
+
+func (n *num) bad() any {
+	switch {
+	case 0 < len(n.big):
+		return string(n.big)
+	default:
+		n.fill()
+		n.big = n.big[:0]
+		if n.i > 10 {
+			return n.bad()
+		}
+	}
+	return n.i
+}
+`
+
+func ruleSelfProgress(prog *Program, rep *Report, floor int, rels ...string) {
+	rep.Rules = append(rep.Rules, "E-selfprogress: in the branch in which a method calls itself on its own receiver with its parameters unchanged, no receiver field that an enclosing branch condition tests is assigned directly between the last method call on the receiver and the self-call: the retry relies on that state having changed ("+strings.Join(rels, ", ")+")")
+	runSynRule(prog, rep, "E-selfprogress", rels, matchSelfProgress, fixtureSelfProgress, 1, floor)
+}
